@@ -20,6 +20,17 @@ STALL = 20.0
 DRAIN_STALL = 8.0
 
 
+class ConsumerFailed(Exception):
+    pass
+
+
+def flat(vals):
+    out = []
+    for v in vals:
+        out.extend(v if isinstance(v, list) else [v])
+    return out
+
+
 class TRun:
     def __init__(self, case):
         self.case = case
@@ -63,6 +74,12 @@ class TRun:
             s2 = Stream(loop=self.loop)
             self.sources.append(s2)
             n = s.union(s2)
+        elif k == "forward":
+            # the producers emit LISTS; every item is forwarded by a consumer (on the loop thread, inside the blocking
+            # emit) into a second pipeline on the same loop with `out.emit`
+            out = Stream(loop=self.loop)
+            self.keep = s.flatten().sink(out.emit)
+            n = out.map(lambda x: x)
         else:
             raise KeyError(k)
         run = self
@@ -118,6 +135,7 @@ class TRun:
             t.start()
         acks = list(self.case["acks"])
         stalled = False
+        blocked = False
         idle_since = None
         while any(t.is_alive() for t in ths):
             self.settle()
@@ -125,13 +143,18 @@ class TRun:
                 nout = len(self.outstanding)
             if nout:
                 idle_since = None
-                n, same = acks.pop(0) if acks else (1, False)
+                ent = acks.pop(0) if acks else [1, False]
+                n, same = ent[0], ent[1]
+                fail = len(ent) > 2 and ent[2]
                 with self.lock:
                     grp = self.outstanding[:n]
                     del self.outstanding[:n]
                     for (v, f) in grp:
-                        self.log.append(("ack", v))
-                if same:
+                        self.log.append(("ackfail" if fail else "ack", v))
+                if fail:
+                    for (v_, f) in grp:
+                        self.loop.add_callback(f.set_exception, ConsumerFailed(v_))
+                elif same:
                     self.loop.add_callback(lambda grp=grp: [f.set_result(None) for (_, f) in grp])
                 else:
                     for (_, f) in grp:
@@ -139,7 +162,10 @@ class TRun:
             else:
                 if idle_since is None:
                     idle_since = time.time()
-                if time.time() - idle_since > STALL and self.ping():
+                if time.time() - idle_since > STALL:
+                    if not self.ping(timeout=10):
+                        blocked = True          # the loop thread itself does not answer any more
+                        break
                     self.settle()
                     with self.lock:
                         if not self.outstanding:
@@ -147,9 +173,9 @@ class TRun:
                             break
         # let late deliveries (buffer) be consumed: go on until everything emitted has been delivered and acknowledged,
         # or nothing has moved for DRAIN_STALL seconds although the loop thread answers
-        total = sum(len(v) for v in self.case["threads"])
+        total = len(flat([x for v in self.case["threads"] for x in v]))
         last_progress = time.time()
-        while not stalled:
+        while not stalled and not blocked:
             self.settle(quiet=0.01, limit=0.5)
             with self.lock:
                 grp = list(self.outstanding)
@@ -170,7 +196,7 @@ class TRun:
         self.loop.add_callback(self.loop.stop)
         self.thread.join(5)
         with self.lock:
-            return {"log": [list(e) for e in self.log], "stalled": stalled, "alive": alive}
+            return {"log": [list(e) for e in self.log], "stalled": stalled, "alive": alive, "blocked": blocked}
 
 
 def run_case(case):
@@ -186,28 +212,52 @@ def check(case, res, want=("C02", "C03")):
     for i, e in enumerate(log):
         if e[0] == "ack":
             pos_ack.setdefault(e[1], i)
-        if e[0] == "ret":
+        if e[0] == "ret" and not isinstance(e[2], list):
             pos_ret[e[2]] = i
+    failed = {e[1] for e in log if e[0] == "ackfail"}
+    if "C16" in want:
+        raised = {(e[2] if not isinstance(e[2], list) else tuple(e[2])) for e in log if e[0] == "exc"}
+        for v in failed:
+            if v not in raised:
+                out.append(("C16", "C16/threaded/exception-swallowed", "the consumer of %r failed but the blocking emit(%r) returned normally" % (v, v)))
+                break
+        for e in log:
+            if e[0] == "exc" and e[2] not in failed:
+                out.append(("C16", "C16/threaded/spurious-exception", "blocking emit(%r) raised %s although its consumer did not fail" % (e[2], e[3])))
+                break
     if "C03" in want:
         for e in log:
+            if e[0] == "exc" and e[2] in failed:
+                continue
             if e[0] == "exc":
                 out.append(("C03", "C03/threaded/emit-raises", "blocking emit(%r) of thread %d raised %s although no node or consumer failed" % (e[2], e[1], e[3])))
                 break
-        if res["stalled"] or res["alive"]:
+        if res.get("blocked"):
+            out.append(("C03", "C03/threaded/loop-thread-blocked", "the event-loop thread stopped answering while blocking emits of threads %r were pending (a blocking wait on the loop thread itself)" % (res["alive"],)))
+        elif res["stalled"] or res["alive"]:
             out.append(("C03", "C03/threaded/emit-never-returns", "all consumers finished but the blocking emits of threads %r never returned" % (res["alive"],)))
+        if k == "forward":
+            for e in log:
+                if e[0] == "ret":
+                    i = log.index(e)
+                    late = [x for x in e[2] if x not in pos_ack or pos_ack[x] > i]
+                    if late:
+                        out.append(("C03", "C03/threaded/emit-early", "blocking emit(%r) returned before the consumers of the forwarded items %r finished" % (e[2], late)))
+                        break
         if k in ("plain", "union2"):
             for v, i in pos_ret.items():
                 if v not in pos_ack or pos_ack[v] > i:
                     out.append(("C03", "C03/threaded/emit-early", "blocking emit(%r) returned before its consumer finished" % (v,)))
                     break
-    if "C02" in want and not res["stalled"] and not res["alive"]:
+    if "C02" in want and not res["stalled"] and not res["alive"] and not res.get("blocked"):
         deliv = [e[1] for e in log if e[0] == "deliv"]
-        emitted = [v for vals in case["threads"] for v in vals]
+        emitted = flat([v for vals in case["threads"] for v in vals])
         raised = {e[2] for e in log if e[0] == "exc"}
         if sorted(deliv) != sorted(emitted):
             out.append(("C02", "C02/threaded/loss-or-dup", "sink received %r, producers emitted %r" % (sorted(deliv), sorted(emitted))))
         else:
             for vals in case["threads"]:
+                vals = flat(vals)
                 sub = [v for v in deliv if v in vals]
                 if sub != list(vals):
                     out.append(("C02", "C02/threaded/order", "thread emitted %r, sink saw them as %r" % (vals, sub)))
@@ -215,8 +265,8 @@ def check(case, res, want=("C02", "C03")):
     return out
 
 
-def gen_case(rng):
-    k = rng.choice(["plain", "plain", "buffer", "union2"])
+def gen_case(rng, fail=False):
+    k = rng.choice(["plain", "plain", "buffer", "union2", "forward", "forward"]) if not fail else "plain"
     sp = {"k": k}
     if k == "buffer":
         sp["n"] = rng.choice([1, 2, 3])
@@ -226,10 +276,20 @@ def gen_case(rng):
     for _ in range(nth):
         vals = []
         for _ in range(rng.choice([1, 1, 2, 3])):
-            v += 1
-            vals.append(v)
+            if k == "forward":
+                items = []
+                for _j in range(rng.choice([1, 2, 2, 3])):
+                    v += 1
+                    items.append(v)
+                vals.append(items)
+            else:
+                v += 1
+                vals.append(v)
         threads.append(vals)
     acks = [[rng.choice([1, 1, 2, 3]), rng.random() < 0.6] for _ in range(v + 2)]
+    if fail:
+        # some consumers FAIL (one completion at a time, so that it is clear whose consumer failed)
+        acks = [[1, False, rng.random() < 0.4] for _ in range(v + 2)]
     return {"node": sp, "threads": threads, "acks": acks}
 
 
